@@ -14,6 +14,8 @@ Other == {[kind |-> "experimental", op |-> "", ver |-> <<0, 0, 0>>],
           [kind |-> "abicoder", op |-> "", ver |-> <<0, 0, 0>>]}
 Exp == [kind |-> "experimental", op |-> "", ver |-> <<0, 0, 0>>]
 Abi == [kind |-> "abicoder", op |-> "", ver |-> <<0, 0, 0>>]
+\* an unrelated pragma whose value looks like a version (`pragma experimental "v0.5.0";`): still not the file's version
+ExpV == [kind |-> "experimental", op |-> "", ver |-> <<0, 5, 0>>]
 
 Sol(op, v) == [kind |-> "solidity", op |-> op, ver |-> v]
 
@@ -21,7 +23,7 @@ Sol(op, v) == [kind |-> "solidity", op |-> op, ver |-> v]
 Item == [kind |-> "item", op |-> "", ver |-> <<0, 0, 0>>]
 \* header shapes: the solidity pragma alone, after / before / between unrelated pragmas, after another item
 Shapes(s) == {<<s>>, <<Exp, s>>, <<s, Exp>>, <<Abi, s>>, <<s, Abi>>, <<Abi, s, Exp>>, <<Exp, Abi, s>>,
-              <<Item, s>>, <<Abi, Item, s>>}
+              <<Item, s>>, <<Abi, Item, s>>, <<ExpV, s>>, <<s, ExpV>>}
 
 Box == (0 .. MaxMajor) \X (0 .. MaxMinor) \X (0 .. MaxPatch)
 Boundary == {v \in Box : /\ v[2] \in {0, 7, 8, 9, MaxMinor}
